@@ -893,30 +893,27 @@ theorem flatMap_const_replicate' (m K : Nat) (v : Int) :
     rw [List.range_succ, List.flatMap_append, ih]
     simp [Nat.succ_mul]
 
-/-- `np.repeat` of a constant bound is the constant bound of the stacked shape -/
-theorem repeatAxis_replicate (n : Nat) (first : Bool) (shape : List Nat) (hne : shape ≠ [])
-    (hpos : 0 < prod shape) (v : Int) :
-    repeatAxis n first shape (List.replicate (prod shape) v) = List.replicate (n * prod shape) v := by
-  cases first with
-  | false =>
-    simp only [repeatAxis, Bool.false_eq_true, if_false, flatMap_replicate_const]
-    rw [Nat.mul_comm]
-  | true =>
-    cases shape with
-    | nil => exact absurd rfl hne
-    | cons d ds =>
-      simp only [prod] at hpos
-      have hS : 0 < prod ds := Nat.pos_of_mul_pos_left hpos
-      simp only [repeatAxis, if_true, List.tail_cons, prod, rows, List.length_replicate,
-        Nat.mul_div_cancel _ hS, List.flatMap_map]
-      have : ∀ r, r < d → (List.replicate n (row (prod ds) r (List.replicate (d * prod ds) v))).flatten =
-          List.replicate (n * prod ds) v := by
-        intro r hr
-        rw [row_replicate' _ _ _ _ (Nat.mul_le_mul_right _ hr)]
-        simp
-      rw [flatMap_range_congr d _ _ this, flatMap_const_replicate']
-      congr 1
-      rw [Nat.mul_left_comm]
+/-- tiling a constant bound gives the constant bound of the stacked shape -/
+theorem tileAxis_replicate (n : Nat) (first : Bool) (shape : List Nat) (hpos : 0 < prod shape) (v : Int) :
+    tileAxis n first shape (List.replicate (prod shape) v) = List.replicate (n * prod shape) v := by
+  obtain ⟨_, hP⟩ := geo first shape hpos
+  have hk : rowLen first (Arr.zeros shape) = kOf first shape := rfl
+  have hz : (Arr.zeros shape).data.length / kOf first shape = mOf first shape := by
+    simp [mOf, Arr.zeros]
+  simp only [tileAxis, concatFrames, hk, hz]
+  have : ∀ r, r < mOf first shape →
+      ((List.replicate n (⟨shape, List.replicate (prod shape) v⟩ : Arr)).flatMap fun f =>
+        row (kOf first shape) r f.data) = List.replicate (n * kOf first shape) v := by
+    intro r hr
+    have h1 : (r + 1) * kOf first shape ≤ prod shape := by
+      conv => rhs; rw [hP]
+      exact Nat.mul_le_mul_right _ hr
+    rw [List.flatMap_def, List.map_replicate, row_replicate' _ _ _ _ h1]
+    simp
+  rw [flatMap_range_congr _ _ _ this, flatMap_const_replicate']
+  congr 1
+  conv => rhs; rw [hP]
+  rw [Nat.mul_left_comm]
 
 theorem withinBounds_replicate (N : Nat) (lo hi : Int) (data : List Int) (hl : data.length = N)
     (h : ∀ x ∈ data, lo ≤ x ∧ x ≤ hi) :
@@ -929,19 +926,121 @@ theorem withinBounds_replicate (N : Nat) (lo hi : Int) (data : List Int) (hl : d
   have := h p.1 hx
   simp [h1.2, h2.2, this.1, this.2]
 
-theorem stack_within_scalar_bounds (first : Bool) (n : Nat) (b : Box) (lo hi : Int) (hne : b.shape ≠ [])
-    (hpos : 0 < prod b.shape) (hlow : b.low = List.replicate (prod b.shape) lo)
-    (hhigh : b.high = List.replicate (prod b.shape) hi) (hlo : lo ≤ 0) (hhi : 0 ≤ hi) (ep : List Arr)
-    (hep : ∀ f ∈ ep, FrameOK b.shape f ∧ ∀ x ∈ f.data, lo ≤ x ∧ x ≤ hi) :
+/-! ### per-coordinate bounds of a stack -/
+
+/-- coordinate-wise `low ≤ data ≤ high` on lists of equal length -/
+def WB : List Int → List Int → List Int → Prop
+  | [], [], [] => True
+  | l :: ls, h :: hs, d :: ds => l ≤ d ∧ d ≤ h ∧ WB ls hs ds
+  | _, _, _ => False
+
+theorem WB_length : ∀ (l h d : List Int), WB l h d → d.length = l.length ∧ d.length = h.length
+  | [], [], [], _ => ⟨rfl, rfl⟩
+  | l :: ls, h :: hs, d :: ds, hw => by
+    obtain ⟨h1, h2⟩ := WB_length ls hs ds hw.2.2
+    exact ⟨by simp [h1], by simp [h2]⟩
+  | [], [], _ :: _, hw => hw.elim
+  | [], _ :: _, _, hw => hw.elim
+  | _ :: _, [], _, hw => hw.elim
+  | _ :: _, _ :: _, [], hw => hw.elim
+
+theorem withinBounds_iff_WB : ∀ (l h d : List Int), withinBounds l h d = true ↔ WB l h d
+  | [], [], [] => by simp [withinBounds, WB]
+  | l :: ls, h :: hs, d :: ds => by
+    have ih := withinBounds_iff_WB ls hs ds
+    simp only [withinBounds, List.length_cons, Bool.and_eq_true, beq_iff_eq, List.zip_cons_cons, List.all_cons,
+      decide_eq_true_eq, WB, Nat.add_right_cancel_iff] at ih ⊢
+    constructor
+    · rintro ⟨⟨h1, h2⟩, ⟨h3, h4⟩, h5⟩
+      exact ⟨h3, h4, ih.mp ⟨⟨h1, h2⟩, h5⟩⟩
+    · rintro ⟨h3, h4, h5⟩
+      obtain ⟨⟨h1, h2⟩, h6⟩ := ih.mpr h5
+      exact ⟨⟨h1, h2⟩, ⟨h3, h4⟩, h6⟩
+  | [], [], _ :: _ => by simp [withinBounds, WB]
+  | [], _ :: _, d => by cases d <;> simp [withinBounds, WB]
+  | _ :: _, [], d => by cases d <;> simp [withinBounds, WB]
+  | _ :: _, _ :: _, [] => by simp [withinBounds, WB]
+
+theorem WB_append : ∀ (l1 h1 d1 l2 h2 d2 : List Int), WB l1 h1 d1 → WB l2 h2 d2 →
+    WB (l1 ++ l2) (h1 ++ h2) (d1 ++ d2)
+  | [], [], [], _, _, _, _, h => by simpa using h
+  | l :: ls, h :: hs, d :: ds, l2, h2, d2, hw, hw2 => by
+    simp only [List.cons_append, WB]
+    exact ⟨hw.1, hw.2.1, WB_append ls hs ds l2 h2 d2 hw.2.2 hw2⟩
+  | [], [], _ :: _, _, _, _, hw, _ => hw.elim
+  | [], _ :: _, _, _, _, _, hw, _ => hw.elim
+  | _ :: _, [], _, _, _, _, hw, _ => hw.elim
+  | _ :: _, _ :: _, [], _, _, _, hw, _ => hw.elim
+
+theorem WB_drop : ∀ (k : Nat) (l h d : List Int), WB l h d → WB (l.drop k) (h.drop k) (d.drop k)
+  | 0, _, _, _, hw => by simpa using hw
+  | _ + 1, [], [], [], _ => by simp [WB]
+  | k + 1, l :: ls, h :: hs, d :: ds, hw => by
+    simp only [List.drop_succ_cons]
+    exact WB_drop k ls hs ds hw.2.2
+  | _ + 1, [], [], _ :: _, hw => hw.elim
+  | _ + 1, [], _ :: _, _, hw => hw.elim
+  | _ + 1, _ :: _, [], _, hw => hw.elim
+  | _ + 1, _ :: _, _ :: _, [], hw => hw.elim
+
+theorem WB_take : ∀ (k : Nat) (l h d : List Int), WB l h d → WB (l.take k) (h.take k) (d.take k)
+  | 0, _, _, _, _ => by simp [WB]
+  | _ + 1, [], [], [], _ => by simp [WB]
+  | k + 1, l :: ls, h :: hs, d :: ds, hw => by
+    simp only [List.take_succ_cons, WB]
+    exact ⟨hw.1, hw.2.1, WB_take k ls hs ds hw.2.2⟩
+  | _ + 1, [], [], _ :: _, hw => hw.elim
+  | _ + 1, [], _ :: _, _, hw => hw.elim
+  | _ + 1, _ :: _, [], _, hw => hw.elim
+  | _ + 1, _ :: _, _ :: _, [], hw => hw.elim
+
+theorem WB_row (k r : Nat) (l h d : List Int) (hw : WB l h d) : WB (row k r l) (row k r h) (row k r d) :=
+  WB_take k _ _ _ (WB_drop (r * k) _ _ _ hw)
+
+theorem WB_flatMap_range (m : Nat) (L H D : Nat → List Int) (hw : ∀ r, r < m → WB (L r) (H r) (D r)) :
+    WB ((List.range m).flatMap L) ((List.range m).flatMap H) ((List.range m).flatMap D) := by
+  induction m with
+  | zero => simp [WB]
+  | succ m ih =>
+    simp only [List.range_succ, List.flatMap_append, List.flatMap_cons, List.flatMap_nil, List.append_nil]
+    exact WB_append _ _ _ _ _ _ (ih fun r hr => hw r (by omega)) (hw m (by omega))
+
+/-- `n` frames, each inside `[lowA, highA]`, against `n` copies of the bound arrays -/
+theorem WB_flatMap_frames (g : Arr → List Int) (lowA highA : Arr) :
+    ∀ (frames : List Arr), (∀ f ∈ frames, WB (g lowA) (g highA) (g f)) →
+      WB ((List.replicate frames.length lowA).flatMap g) ((List.replicate frames.length highA).flatMap g)
+        (frames.flatMap g)
+  | [], _ => by simp [WB]
+  | f :: rest, hw => by
+    simp only [List.length_cons, List.replicate_succ, List.flatMap_cons]
+    exact WB_append _ _ _ _ _ _ (hw f (by simp))
+      (WB_flatMap_frames g lowA highA rest fun f' hf' => hw f' (by simp [hf']))
+
+/-- the stack of frames that are inside a Box's (per-coordinate) bounds is inside the tiled bounds, provided the
+zero frame is inside the bounds too -/
+theorem stack_within_bounds (first : Bool) (n : Nat) (b : Box) (ep : List Arr)
+    (hz : b.contains (Arr.zeros b.shape) = true) (hep : ∀ f ∈ ep, b.contains f = true) :
     (stackedBox n first b).contains (stackOf first n b.shape ep) = true := by
-  simp only [Box.contains, stackedBox, stackOf_shape, beq_self_eq_true, Bool.true_and, hlow, hhigh,
-    repeatAxis_replicate n first b.shape hne hpos]
-  apply withinBounds_replicate
-  · exact stackOf_length first n b.shape hpos ep (fun f hf => (hep f hf).1)
-  · intro x hx
-    rcases mem_stackOf_data first n b.shape ep x hx with h | ⟨f, hf, hxf⟩
-    · subst h; exact ⟨hlo, hhi⟩
-    · exact (hep f hf).2 x hxf
+  have hwz : WB b.low b.high (Arr.zeros b.shape).data := by
+    simp only [Box.contains, Bool.and_eq_true] at hz
+    exact (withinBounds_iff_WB _ _ _).mp hz.2
+  have hwf : ∀ f ∈ paddedFrames n (Arr.zeros b.shape) ep, WB b.low b.high f.data := by
+    intro f hf
+    rcases mem_paddedFrames _ _ _ _ hf with h | h
+    · rw [h]; exact hwz
+    · have := hep f h
+      simp only [Box.contains, Bool.and_eq_true] at this
+      exact (withinBounds_iff_WB _ _ _).mp this.2
+  have hlen := paddedFrames_length n (Arr.zeros b.shape) ep
+  simp only [Box.contains, stackedBox, stackOf_shape, beq_self_eq_true, Bool.true_and]
+  rw [withinBounds_iff_WB]
+  simp only [tileAxis, stackOf, concatFrames]
+  apply WB_flatMap_range
+  intro r _
+  have := WB_flatMap_frames (fun f : Arr => row (rowLen first (Arr.zeros b.shape)) r f.data) ⟨b.shape, b.low⟩
+    ⟨b.shape, b.high⟩ (paddedFrames n (Arr.zeros b.shape) ep) (fun f hf => WB_row _ _ _ _ _ (hwf f hf))
+  rw [hlen] at this
+  exact this
 
 /-! ### transposition -/
 
@@ -2185,8 +2284,8 @@ theorem build_invB (cfg : WCfg) (sp sp' : Space) (w : WS) (hb : cfg.build sp = .
               obtain ⟨hne, hpos⟩ := hmem sp.subs[i] (List.getElem_mem h1)
               simp only [List.getElem_map, stackedBox]
               refine ⟨hk, ?_, ?_⟩
-              · rw [hlow, repeatAxis_replicate n _ _ hne hpos, prod_stackedShape _ n _ hne]
-              · rw [hhigh, repeatAxis_replicate n _ _ hne hpos, prod_stackedShape _ n _ hne]
+              · rw [hlow, tileAxis_replicate n _ _ hpos, prod_stackedShape _ n _ hne]
+              · rw [hhigh, tileAxis_replicate n _ _ hpos, prod_stackedShape _ n _ hne]
   | transpose skip =>
     simp only [WCfg.build] at hb
     split at hb
